@@ -92,6 +92,19 @@ Proof.
 Qed.
 End Mix.
 
+(* containment on the traceless path: the identity G_0 is split off, E has no identity component *)
+Theorem mix_contains_traceless d n G W i E : basis_herm d (S n) G -> basis_complete d (S n) G ->
+  fexpand d E G 0 = 0c ->
+  (forall j, (j < n)%nat -> W i j = fexpand d E G (S j)) ->
+  feq d (mixB n (fun j => G (S j)) W i) E.
+Proof.
+  intros Hh Hc H0 HW. unfold mixB.
+  eapply feq_trans; [|apply (expand_reconstruct_f d (S n) G E Hh Hc)].
+  intros a b _ _. unfold freconstruct. rewrite csumn_shift0, H0.
+  rewrite (csumn_ext n (fun k => cmul' (W i k) (G (S k) a b)) (fun k => cmul' (fexpand d E G (S k)) (G (S k) a b))).
+  ring. intros j Hj. rewrite HW; auto.
+Qed.
+
 (* ------------------------------------------------------------------ the list model *)
 Definition Wf (Wl : list (list Cx)) (i j : nat) : Cx := nth j (nth i Wl []) 0c.
 Definition Gf (g : list Mat) (j : nat) : fmat := toF (nth j g []).
